@@ -38,7 +38,7 @@ add("tests",
     ids("if", "header", "address", "exists", "size", "not", "stop")
     + tags(":comparator", ":is", ":contains", ":count", ":regex", ":localpart", ":over", ":bogus")
     + strs("a", "i;octet", "gt", "zz") + [("num", "10K")],
-    prelude=req("relational", "regex"), quick=5, thorough=7)
+    prelude=req("relational", "regex"), quick=6, thorough=7)
 add("actions",
     ids("fileinto", "redirect", "reject", "keep", "stop", "if", "true")
     + tags(":copy", ":create", ":flags", ":bogus") + strs("a", "b") + [("ml", "m")] + [("num", "1")],
@@ -56,7 +56,7 @@ add("dateetc",
     ids("if", "body", "date", "currentdate", "set", "stop")
     + tags(":zone", ":originalzone", ":is", ":value", ":raw", ":content", ":text", ":comparator")
     + strs("a", "b", "ge", "i;ascii-casemap") + [("num", "1")],
-    prelude=req("body", "date", "variables", "relational"), quick=5, thorough=7)
+    prelude=req("body", "date", "variables", "relational"), quick=6, thorough=7)
 add("gating",
     ids("require", "if", "fileinto", "reject", "envelope", "body", "vacation", "set", "currentdate",
         "setflag", "hasflag", "header", "redirect", "keep")
